@@ -69,10 +69,21 @@ def streamWriteUpdate (p : WSt) (code : Nat) : Step ((SRes × WSt) ⊕ WSt) :=
   | some (.dropped amt) =>
     (p.buf.advance amt).bind fun b => .ok (.inl (.complete amt, { buf := b, wr := { p.wr with done := true } })) []
 
+/-- the pointer of a `stream.write` / `stream.read` as the host sees it: the model's element offset (cursor / length
+of the vector) times the element size = the byte offset from the base of the storage -/
+def Ev.scaleOff (esize : Nat) : Ev → Ev
+  | .ch .swrite [h, n, a, off] => .ch .swrite [h, n, a, off * esize]
+  | .ch .sread [h, n, a, off] => .ch .sread [h, n, a, off * esize]
+  | e => e
+
+/-- `start` of a write hands the host `abi_ptr_and_len()`: the LAST component of the `swrite` event is where
+the pointer points, counted in ELEMENTS from the base of the buffer's storage (the vector's heap block for a
+canonical payload, the slab otherwise) — the cursor; in bytes that is `cursor * element size` (the script layer,
+`Ev.scaleOff`, multiplies by the channel's element size; the mock host reports the byte offset it sees). -/
 def streamWriteOps : Ops WSt WSt (SRes × WSt) (SRes × WSt) where
   start s ans :=
     if s.wr.done then ([], Limits.dropped, s)
-    else ([.ch .swrite [s.wr.handle, min s.buf.remaining Limits.streamMaxLength, ans]], ans, s)
+    else ([.ch .swrite [s.wr.handle, min s.buf.remaining Limits.streamMaxLength, ans, s.buf.cursor]], ans, s)
   startCancelled s := ([], (.cancelled, s))
   update := streamWriteUpdate
   waitable p := some p.wr.handle
@@ -122,10 +133,12 @@ def streamReadUpdate (p : RSt) (code : Nat) : Step ((SRes × RSt) ⊕ RSt) :=
   | some (.cancelled amt) => fin amt false
   | some (.dropped amt) => fin amt true
 
+/-- `start` of a read hands the host the spare capacity: for a canonical payload `vec.as_mut_ptr() + len`
+(element offset = the number of values already in the vector), otherwise the base of a fresh slab (offset 0) -/
 def streamReadOps : Ops RSt RSt (SRes × RSt) (SRes × RSt) where
   start s ans :=
     if s.rd.done then ([], Limits.dropped, { s with slab := false })
-    else ([.ch .sread [s.rd.handle, min s.spare Limits.streamMaxLength, ans]], ans,
+    else ([.ch .sread [s.rd.handle, min s.spare Limits.streamMaxLength, ans, if s.kind.lowers then 0 else s.buf.length]], ans,
           { s with slab := s.kind.lowers && s.spare != 0 })
   startCancelled s := ([], (.cancelled, s))
   update := streamReadUpdate
